@@ -177,9 +177,12 @@ def shown(text, exact):
     return text if exact else 'approx. ' + text
 
 # ---- wire ---------------------------------------------------------------
-def fmt_rat_line(x_neg, num, den, vexact, bk, st, comma, force_large=0):
+def fmt_rat_line(x_neg, num, den, vexact, bk, st, comma, force_large=0, lead=0):
+    """lead = number of zero limbs appended to numerator and denominator
+    (a non-canonical BigUint::Large, same value)"""
     t, n = style_tag(st)
-    return sx([Sym('fmt-rat'), int(x_neg), limbs(num), limbs(den), int(vexact), bk[0], bk[1], t, n, int(comma), force_large])
+    return sx([Sym('fmt-rat'), int(x_neg), limbs(num) + [0] * lead, limbs(den) + [0] * lead, int(vexact), bk[0], bk[1], t, n,
+               int(comma), int(force_large or lead > 0)])
 
 def res_text(o):
     """('ok', text) | ('err', name) | ('crash', raw)"""
